@@ -99,12 +99,27 @@ def coqc(path: Path, gen_dir: Path | None = None, timeout=600):
 
 
 def grep_forbidden() -> list[str]:
+    """Forbidden declarations anywhere in the development, and Variable/Hypothesis/Context outside a Section."""
     hits = []
+    sec = re.compile(r'^\s*Section\s+([A-Za-z_0-9\']+)\s*\.')
+    end = re.compile(r'^\s*End\s+([A-Za-z_0-9\']+)\s*\.')
+    var = re.compile(r'^\s*(Variable|Variables|Hypothesis|Hypotheses|Context)\b')
     for p in list(THEORIES.rglob('*.v')):
-        text = re.sub(r'\(\*.*?\*\)', '', p.read_text(), flags=re.S)
+        text = re.sub(r'\(\*.*?\*\)', lambda m: '\n' * m.group(0).count('\n'), p.read_text(), flags=re.S)
+        open_sections: list[str] = []
         for i, line in enumerate(text.splitlines(), 1):
             if FORBIDDEN.search(line):
                 hits.append(f'{p}:{i}: {line.strip()}')
+            m = sec.match(line)
+            if m:
+                open_sections.append(m.group(1))
+                continue
+            m = end.match(line)
+            if m and open_sections and open_sections[-1] == m.group(1):
+                open_sections.pop()
+                continue
+            if var.match(line) and not open_sections:
+                hits.append(f'{p}:{i}: outside any Section: {line.strip()}')
     return hits
 
 
